@@ -81,6 +81,8 @@ typedef void (*vclk_wait_hook_t)(int kind, int64_t timeout_us, void *a, void *b,
 extern vclk_wait_hook_t vclk_wait_hook;
 /* invoked when the loop would block forever (default: sets the flag only) */
 extern void (*vclk_forever_hook)(void);
+extern int vclk_fail_next_wait;   /* errno for a one-shot failure of the next backend wait (0: none) */
+extern long vclk_wait_failed;
 void vclk_enable(int64_t start_us);
 void vclk_advance(int64_t us);
 
@@ -113,6 +115,8 @@ long mf_ordinal(void);              /* allocations since last mf_arm */
 /* ---- lock monitor (lockmon.c) ---- */
 void lm_install(void);              /* evthread_set_*_callbacks */
 int  lm_held_now(void);             /* number of lock holds (sum of depths) of this thread */
+extern int  lm_fail_trylock;        /* >0: that many try-locks of locks not held by the caller fail (EBUSY) */
+extern long lm_trylock_failed;
 extern long lm_nlocks_taken;        /* total acquisitions observed */
 extern int  lm_delay_permille;      /* inject yields/sleeps at acquire/release */
 void lm_thread_seed(uint64_t seed);
